@@ -95,3 +95,141 @@ theorem obs_fold_field (name q0 : Bytes) (qs rest : List Bytes) (acc : List Fiel
   rfl
 
 end MitmVerif.C01
+
+namespace MitmVerif.C01
+open MitmVerif
+
+/-- a field given by the CRLF-separated parts of its value (what `_read_headers` builds: `v0 ++ "\r\n " ++ …`) -/
+structure PField where
+  name : Bytes
+  q0 : Bytes
+  qs : List Bytes
+
+namespace PField
+def value (pf : PField) : Bytes := joinWith crlf (pf.q0 :: pf.qs)
+/-- the field as recorded in the flow -/
+def field (pf : PField) : Field := (pf.name, pf.value)
+/-- the field as the reference reader reads it -/
+def ufield (pf : PField) : Field := (pf.name, Ref.unfold pf.value)
+def lines (pf : PField) : List Bytes := (pf.name ++ colonSp ++ pf.q0) :: pf.qs
+def ok (pf : PField) : Prop :=
+  cleanLine pf.q0 ∧ (0 : UInt8) ∉ pf.q0 ∧ ∀ q ∈ pf.qs, cleanLine q ∧ (0 : UInt8) ∉ q ∧ startsWs q
+end PField
+
+theorem renderLines_append (a b : List Bytes) : renderLines (a ++ b) = renderLines a ++ renderLines b := by
+  induction a with
+  | nil => rfl
+  | cons x xs ih => simp [renderLines, ih, List.append_assoc]
+
+theorem render_parts (pre q0 : Bytes) (qs : List Bytes) :
+    pre ++ joinWith crlf (q0 :: qs) ++ crlf = renderLines ((pre ++ q0) :: qs) := by
+  induction qs generalizing pre q0 with
+  | nil => simp [joinWith, renderLines]
+  | cons q rest ih =>
+    have := ih [] q
+    simp only [List.nil_append] at this
+    simp only [joinWith, renderLines, List.append_assoc] at this ⊢
+    rw [this]
+
+theorem assembleFields_fold (pfs : List PField) :
+    assembleFields (pfs.map PField.field) = renderLines (pfs.flatMap PField.lines) := by
+  induction pfs with
+  | nil => rfl
+  | cons pf rest ih =>
+    simp only [List.map_cons, List.flatMap_cons, renderLines_append, PField.field, assembleFields, ih]
+    have := render_parts (pf.name ++ colonSp) pf.q0 pf.qs
+    simp only [PField.lines, PField.value, List.append_assoc] at this ⊢
+    rw [← this]; simp [List.append_assoc]
+
+theorem fieldsAux_fold : ∀ (pfs : List PField) (acc : List Field),
+    (∀ pf ∈ pfs, isToken pf.name = true ∧ pf.ok) →
+    Ref.fieldsAux (pfs.flatMap PField.lines) acc = .ok (acc.reverse ++ pfs.map PField.ufield)
+  | [], acc, _ => by simp [Ref.fieldsAux]
+  | pf :: rest, acc, h => by
+    obtain ⟨hn, hq0, _, hqs⟩ := h pf (by simp)
+    have ih := fieldsAux_fold rest (pf.ufield :: acc) (fun x hx => h x (by simp [hx]))
+    have hlf : ∀ p ∈ pf.q0 :: pf.qs, (10 : UInt8) ∉ p := by
+      intro p hp
+      simp at hp
+      rcases hp with rfl | hp
+      · exact hq0.2
+      · exact (hqs p hp).1.2
+    have := obs_fold_field pf.name pf.q0 pf.qs (rest.flatMap PField.lines) acc hn (fun q hq => (hqs q hq).2.2) hlf
+    simp only [List.flatMap_cons, PField.lines, List.cons_append] at this ⊢
+    rw [this]
+    simp only [PField.ufield, PField.value] at ih ⊢
+    rw [ih]; simp [PField.ufield, PField.value]
+
+theorem lines_clean (pf : PField) (hn : isToken pf.name = true) (hok : pf.ok) :
+    ∀ l ∈ pf.lines, cleanLine l ∧ l ≠ [] := by
+  obtain ⟨hq0, _, hqs⟩ := hok
+  obtain ⟨_, h13, h10, hne, _⟩ := token_no_colon hn
+  intro l hl
+  simp only [PField.lines, List.mem_cons] at hl
+  rcases hl with rfl | hl
+  · refine ⟨⟨?_, ?_⟩, ?_⟩
+    · simp [colonSp, h13, hq0.1]
+    · simp [colonSp, h10, hq0.2]
+    · cases hnm : pf.name with
+      | nil => exact absurd hnm hne
+      | cons c cs => simp
+  · obtain ⟨hc, _, c, t, rfl, _⟩ := hqs l hl
+    exact ⟨hc, by simp⟩
+
+theorem no_nul_strip {b : Bytes} (h : (0 : UInt8) ∉ b) : (0 : UInt8) ∉ stripBy isOws b := by
+  unfold stripBy; exact rstripBy_not_mem (lstripBy_not_mem h)
+
+theorem no_nul_foldVal : ∀ (qs : List Bytes) (a : Bytes), (0 : UInt8) ∉ a → (∀ q ∈ qs, (0 : UInt8) ∉ q) →
+    (0 : UInt8) ∉ qs.foldl foldStep a
+  | [], a, ha, _ => by simpa using ha
+  | q :: qs, a, ha, h => by
+    simp only [List.foldl_cons]
+    apply no_nul_foldVal qs
+    · unfold foldStep
+      apply no_nul_strip
+      have := no_nul_strip (h q (by simp))
+      simp [ha, this]
+    · exact fun x hx => h x (by simp [hx])
+
+theorem ufield_no_nul (pf : PField) (hok : pf.ok) : (0 : UInt8) ∉ pf.ufield.2 := by
+  obtain ⟨hq0, hz, hqs⟩ := hok
+  have hlf : ∀ p ∈ pf.q0 :: pf.qs, (10 : UInt8) ∉ p := by
+    intro p hp
+    simp at hp
+    rcases hp with rfl | hp
+    · exact hq0.2
+    · exact (hqs p hp).1.2
+  simp only [PField.ufield, PField.value, unfold_join pf.q0 pf.qs hlf, foldVal]
+  exact no_nul_foldVal pf.qs _ (no_nul_strip hz) (fun q hq => (hqs q hq).2.1)
+
+/-- the framing fields themselves are not folded and carry no surrounding OWS (implied by `validate_headers`, which rejects
+    a Content-Length / Transfer-Encoding value containing CR LF; taken as a hypothesis here) -/
+def FramingFieldsPlain (pfs : List PField) : Prop :=
+  ∀ pf ∈ pfs, (asciiLower pf.name = sTE ∨ asciiLower pf.name = sCL) → pf.qs = [] ∧ stripBy isOws pf.q0 = pf.q0
+
+theorem getAll_fold (pfs : List PField) (n : Bytes) (hn : n = sTE ∨ n = sCL) (hok : ∀ pf ∈ pfs, pf.ok)
+    (hfp : FramingFieldsPlain pfs) :
+    getAll (pfs.map PField.ufield) n = getAll (pfs.map PField.field) n := by
+  induction pfs with
+  | nil => rfl
+  | cons pf rest ih =>
+    have ih' := ih (fun x hx => hok x (by simp [hx])) (fun x hx => hfp x (by simp [hx]))
+    simp only [getAll, List.map_cons, List.filter_cons, PField.ufield, PField.field] at ih' ⊢
+    by_cases hm : asciiLower pf.name = n
+    · have hpl := hfp pf (by simp) (by rcases hn with rfl | rfl <;> simp [hm])
+      have hq0 := (hok pf (by simp)).1
+      have hv : Ref.unfold pf.value = pf.value := by
+        have hs : splitOn 10 pf.q0 = [pf.q0] := splitOn_no_sep hq0.2
+        simp [PField.value, hpl.1, joinWith, Ref.unfold, hs, hpl.2]
+      simp only [hm, decide_true, ↓reduceIte, List.map_cons, hv]
+      rw [ih']
+    · simp only [hm, decide_false, Bool.false_eq_true, ↓reduceIte]
+      exact ih'
+
+theorem framing_fold (pfs : List PField) (hok : ∀ pf ∈ pfs, pf.ok) (hfp : FramingFieldsPlain pfs)
+    (v : Bytes) (k : Kind) (m : Bytes) :
+    Ref.framing (pfs.map PField.ufield) v k m = Ref.framing (pfs.map PField.field) v k m := by
+  unfold Ref.framing
+  rw [getAll_fold pfs sTE (Or.inl rfl) hok hfp, getAll_fold pfs sCL (Or.inr rfl) hok hfp]
+
+end MitmVerif.C01
